@@ -5,7 +5,11 @@ PROP = {
     "level_text": ("A real ChannelArbitrator (bolt log, real resolvers, stub environment that records ForceCloseChan, "
                    "ResolutionMsgs to the switch, final HTLC outcomes, launched resolvers) is driven with generated "
                    "local/remote/remote-pending HTLC sets (presence patterns the update protocol allows, dust per "
-                   "commitment, offered/received, preimage known via beacon or invoice, forwarded/own payment, "
+                   "commitment, offered/received, preimage knowledge by SOURCE - witness cache only / invoice registry only "
+                   "with a realistic invoices.Invoice in state Open, Accepted (hold invoice with and without a "
+                   "preimage in its terms), Settled or Canceled / both / none (ErrInvoiceNotFound or "
+                   "ErrNoInvoicesCreated); the reference rule is the statement's: known iff the cache has it or a "
+                   "not-canceled invoice carries it -, forwarded/own payment, "
                    "expiries at cutoff +-{0,1,2} of the delivered heights, broadcast deltas {1,5,10,40}, grace "
                    "period via TestClock) and every close trigger (chain deadline, user force close, direct "
                    "confirmation; local / remote / pending-remote / breach / coop confirming, also after our own "
@@ -15,12 +19,18 @@ PROP = {
                    "that is dust on / absent from the confirmed commitment (none when absent with known preimage), "
                    "no fail-back after confirmation for an HTLC that has an output, received dust closed out. "
                    "5e3 (quick) / 2e6 (thorough) arbitrator cases; constructChainActions additionally enumerated "
-                   "over all multisets of <=2 (quick, + every 41st triple) / <=3 (thorough) HTLC cells."),
+                   "over all multisets of <=2 (quick, + every 41st triple) / <=3 (thorough) HTLC cells, the known "
+                   "preimages of a cell case coming in rotation from the cache, a settled invoice or an open invoice."),
     "level_note": ("Sampled, except the classifier sub-space: all multisets of up to 3 of the 136 (48 without a pending "
                    "commitment) protocol-legal HTLC cells x confirmed commitment are enumerated completely in thorough "
                    "(exhaustive for that sub-space only). Deadline obligations are derived from the HTLCs on our own "
                    "commitment; offered HTLCs that exist only on the peer's commitments and own payments inside the "
-                   "grace period are neutral (neither must-close nor must-not-close). Fail-backs issued at broadcast "
+                   "grace period are neutral (neither must-close nor must-not-close). A preimage whose only source "
+                   "is a CANCELED invoice that still carries it is neutral as well (neither known nor unknown for any "
+                   "verdict; counted as src_reg_canceled_pre / neutral_canceled_invoice_offered_absent). "
+                   "deadline_must_only_src_<class> counts the deadline obligations that rest on received HTLCs of a "
+                   "single knowledge source. After the confirmation the resolver oracle judges the direction of the "
+                   "resolver, not success vs contest, so the invoice state is not judged there. Fail-backs issued at broadcast "
                    "time for an HTLC that is dust on ours but an output on the commitment that later confirms are a "
                    "diagnostic (documented lnd trade-off), the last sentence of the statement is applied to "
                    "dispositions made after the confirmation. Resolvers are observed right after the close event "
@@ -49,12 +59,34 @@ PROP = {
                       "oracle_failback_evals": 1000, "oracle_no_failback_evals": 1200,
                       "oracle_received_dust_evals": 800, "oracle_breach_failback_evals": 400,
                       "oracle_known_not_failed_evals": 300, "oracle_user_close_evals": 200,
-                      "cell_evals": 30000},
+                      "cell_evals": 30000,
+                      "src_cache": 400, "src_reg_open": 140, "src_reg_accepted": 140, "src_reg_settled": 280,
+                      "src_both_open": 130, "src_both_settled": 130, "src_both_accepted_nopre": 130,
+                      "src_both_canceled": 130, "src_none": 800, "src_reg_accepted_nopre": 400,
+                      "src_reg_open_nopre": 200, "src_reg_canceled_nopre": 190, "src_reg_canceled_pre": 140,
+                      "src_offered_registry": 600,
+                      "deadline_must_only_src_cache": 120, "deadline_must_only_src_reg_open": 40,
+                      "deadline_must_only_src_reg_accepted": 40, "deadline_must_only_src_reg_settled": 80,
+                      "deadline_must_only_src_both_settled": 30,
+                      "known_not_failed_registry_only_evals": 35,
+                      "cell_src_kind_0": 10000, "cell_src_kind_1": 10000, "cell_src_kind_2": 10000},
             "thorough": {"arb_cases": 1000000, "oracle_deadline_evals": 3400000, "oracle_resolver_evals": 1100000,
                          "oracle_failback_evals": 460000, "oracle_no_failback_evals": 550000,
                          "oracle_received_dust_evals": 330000, "oracle_breach_failback_evals": 200000,
                          "oracle_known_not_failed_evals": 125000, "oracle_user_close_evals": 100000,
-                         "cell_evals": 650000},
+                         "cell_evals": 650000,
+                         "src_cache": 120000, "src_reg_open": 42000, "src_reg_accepted": 42000,
+                         "src_reg_settled": 84000, "src_both_open": 39000, "src_both_settled": 39000,
+                         "src_both_accepted_nopre": 39000, "src_both_canceled": 39000, "src_none": 240000,
+                         "src_reg_accepted_nopre": 120000, "src_reg_open_nopre": 60000,
+                         "src_reg_canceled_nopre": 57000, "src_reg_canceled_pre": 42000,
+                         "src_offered_registry": 180000, "deadline_must_only_src_cache": 36000,
+                         "deadline_must_only_src_reg_open": 12000,
+                         "deadline_must_only_src_reg_accepted": 12000,
+                         "deadline_must_only_src_reg_settled": 24000,
+                         "deadline_must_only_src_both_settled": 9000,
+                         "known_not_failed_registry_only_evals": 10500, "cell_src_kind_0": 200000,
+                         "cell_src_kind_1": 200000, "cell_src_kind_2": 200000},
         },
     }],
 }
